@@ -520,6 +520,12 @@ def case_one_level(kind, n, flavour, ns, nil, mode):
         if py.kind != spec.kind or py.type is not spec.type:
             out.append(('C18.one_level_kind_type_agree', '%s: Python (kind, type) = (%s, %r), engine (%s, %r)'
                         % (label, py.kind, py.type, spec.kind, spec.type)))
+        # the same through PyTreeSpec.one_level() of the full treespec
+        ol = optree.tree_structure(x, none_is_leaf=nil, namespace=ns).one_level()
+        if ol is None or ol.kind != py.kind or ol.type is not py.type or not eq_meta(ol.entries(), list(py.entries)) or \
+                ol.num_children != len(py.children):
+            out.append(('C18.one_level_kind_type_agree', '%s: tree_structure(node).one_level() = %r disagrees with the Python one-level '
+                        'flatten (kind %s, type %r, entries %r)' % (label, ol, py.kind, py.type, py.entries)))
         # metadata (engine: what PyTreeSpec.walk hands to f_node)
         marks = list(range(len(leaves)))
         wtype, wmeta, wchildren = spec.walk(marks, lambda t, m, c: (t, m, c))
@@ -543,7 +549,7 @@ def case_one_level(kind, n, flavour, ns, nil, mode):
         ev = spec.unflatten(leaves)
         if not eq_value(pv, ev) or not eq_value(ev, x):
             out.append(('C18.one_level_unflatten_agree', '%s: Python unflatten_func gives %r, engine unflatten gives %r' % (label, pv, ev)))
-    return out, 7
+    return out, 8
 
 
 # ---- history independence -----------------------------------------------------------------------
@@ -691,7 +697,7 @@ def _run(ctx: U.Ctx, tier: str, seed: int) -> BoundedReport:
                 n_sort += 1
         if ctx.out_of_time():
             break
-    n_mix = 4000 if quick else 60000
+    n_mix = 20000 if quick else 100000
     for i in range(n_mix):
         one(('sort', '*mixed*', (seed * 1000003 + i, 2 + i % 7)), True)
         if i % 500 == 0 and ctx.out_of_time():
@@ -712,7 +718,7 @@ def _run(ctx: U.Ctx, tier: str, seed: int) -> BoundedReport:
                  f'opaque object, optree partial, tuple/list/dict subclasses, struct_time, dicts with partly ordered and bool/int keys) x '
                  f'3 namespaces x none_is_leaf x 3 dict-order modes')
     # history
-    n_tr, rounds = (6000, 6) if quick else (9000, 60)
+    n_tr, rounds = (6000, 12) if quick else (9000, 80)
     ctx.progress(f'history {n_tr} x {rounds}')
     try:
         found, evals, reused = case_history(n_tr, rounds)
